@@ -13,7 +13,7 @@ import (
 // code points a domain label may be built from in the C09 generator: no URL delimiters, no '%',
 // no C0/space (a literal tab is stripped by the parser, an escaped one is not)
 var c09Points = []string{"a", "b", "z", "A", "Z", "m", "0", "1", "9", "-", "_", "x", "n", "e", "X", "N", "é", "É", "ü", "ß", "ẞ", "☃", "日", "本", "­", "‍", "‌",
-	"ａ", "Ａ", "Ⅷ", "İ", "K", "́", "א", "ب", "。", "．", "｡", "!", "$", "&", "'", "(", ")", "*", "+", ",", ";", "=", "~", "\U0001F600", "ǆ", "Ǆ"}
+	"ａ", "Ａ", "Ⅷ", "≠", "≮", "≯", "İ", "K", "́", "א", "ب", "。", "．", "｡", "!", "$", "&", "'", "(", ")", "*", "+", ",", ";", "=", "~", "\U0001F600", "ǆ", "Ǆ"}
 
 func (r *Rng) c09Host() []string {
 	nl := 1 + r.Intn(3)
